@@ -619,6 +619,18 @@ def h_gcp_affine(op, crop, zoom=None):
         l2, b2, r2, t2 = (ex(v) for v in bb.bbox)
         prove("bbox_is_image_of_pixel_rectangle", And(abs(l2 - L) <= tol, abs(r2 - R) <= tol, abs(b2 - B_) <= tol, abs(t2 - T) <= tol))
         prove("bbox_crs", bb.crs == g.crs)
+    elif op == "bbox_after_zoom_out":
+        # the footprint views of the source were looked at BEFORE zooming (they are cached): the
+        # zoomed box (pixel counts rounded up, so it reaches beyond the source) has its own
+        _ = g.boundingbox
+        _ = g.extent
+        z = g.zoom_out(2)
+        zc = [z.pix2wld(x, y) for x, y in ((0, 0), (z.shape.x, 0), (z.shape.x, z.shape.y), (0, z.shape.y))]
+        zx, zy = [ex(p[0]) for p in zc], [ex(p[1]) for p in zc]
+        zL, zR = _ext(zx, lambda a_, b_: a_ < b_), _ext(zx, lambda a_, b_: a_ > b_)
+        zB, zT = _ext(zy, lambda a_, b_: a_ < b_), _ext(zy, lambda a_, b_: a_ > b_)
+        l2, b2, r2, t2 = (ex(v) for v in z.boundingbox.bbox)
+        prove("zoomed_bbox_is_image_of_its_own_pixel_rectangle", And(abs(l2 - zL) <= tol, abs(r2 - zR) <= tol, abs(b2 - zB) <= tol, abs(t2 - zT) <= tol))
     elif op == "zoom_res":
         q = F(7, 2)
         if symx.concrete_mode():
@@ -708,6 +720,29 @@ ZO_Q = ["2", "3/2", "1/3"]
 ZO_T = ZO_Q + ["1", "7", "7/3", "1/2", "10"]
 KINDS = ["ii", "ni", "in", "nn"]
 
+def h_resolution_rws(rot, shear, sx, sy):
+    """a grid built as rotation x shear x scale (the decomposition the library documents): the
+    reported resolution is the scale part -- the pixel size along the pixel axes -- not the length
+    of the sheared edge vectors"""
+    from affine import Affine
+
+    import odc.geo.geobox as gbx
+
+    c, s_ = F(rot[0]), F(rot[1])
+    w = F(shear)
+    kx, ky = F(sx), F(sy)
+    # M = R . W . S
+    R = ((c, -s_), (s_, c))
+    W = ((F(1), w), (F(0), F(1)))
+    RW = tuple(tuple(sum(R[i][k] * W[k][j] for k in range(2)) for j in range(2)) for i in range(2))
+    a, b, d, e = RW[0][0] * kx, RW[0][1] * ky, RW[1][0] * kx, RW[1][1] * ky
+    g = gbx.GeoBox((Int("ny", 1), Int("nx", 1)), Affine(rconst(a), rconst(b) if b else 0.0, Real("tx"), rconst(d) if d else 0.0, rconst(e), Real("ty")), "epsg:3857")
+    r = g.resolution
+    tol = F(1, 10**9) if symx.concrete_mode() else 0
+    prove("resolution_is_the_scale_part_x", abs(ex(r.x) - kx) <= tol * abs(kx))
+    prove("resolution_is_the_scale_part_y", abs(ex(r.y) - ky) <= tol * abs(ky))
+
+
 OBLIGATIONS = [
     Ob("G1_inverse", h_inverse, fixed(), descr="wld2pix and pix2wld are mutual inverses", functions=("odc.geo.geobox.GeoBoxBase.wld2pix", "odc.geo.geobox.GeoBoxBase.pix2wld", "affine.Affine.__invert__"),
        bounds="fully symbolic affine, det != 0", setup=setup, fresh_only=True),
@@ -715,6 +750,10 @@ OBLIGATIONS = [
        functions=("odc.geo.geobox.GeoBoxBase.extent", "odc.geo.geom.polygon_from_transform"), stubs=("polygon constructor captured",), setup=setup, fresh_only=True),
     Ob("G3_boundingbox", h_bbox, fixed(dict(kind="full"), dict(kind="st")), descr="boundingbox is the min/max over the four corner images (rotated/sheared affines included)",
        functions=("odc.geo.geobox.GeoBoxBase.boundingbox", "odc.geo.geom.BoundingBox.from_transform"), bounds="fully symbolic affine", setup=setup, fresh_only=True, timeout_ms=30000),
+    Ob("G4_resolution_rws", h_resolution_rws, fixed(dict(rot=["3/5", "4/5"], shear="0", sx="10", sy="-10"), dict(rot=["3/5", "4/5"], shear="1/2", sx="10", sy="-10"), dict(rot=["1", "0"], shear="-3/4", sx="2", sy="5"),
+                                                     dict(rot=["5/13", "-12/13"], shear="1/3", sx="1/4", sy="-1/3"), dict(rot=["0", "1"], shear="0", sx="30", sy="30")),
+       descr="rotated / sheared grids built as rotation x shear x scale: .resolution is the scale part (the documented R.W.S decomposition), shear included", functions=("odc.geo.geobox.GeoBoxBase.resolution", "odc.geo.math.resolution_from_affine", "odc.geo.math.decompose_rws"),
+       bounds="rational rotations, shears and scales from a grid; translation and shape symbolic", stubs=("exact Cholesky for rational matrices",), setup=setup, timeout_ms=20000),
     Ob("G4_coordinates", h_coords, fixed(), descr="axis-aligned: coordinate label k is the image of pixel centre k+1/2; Coordinate.resolution and .resolution are the per-axis steps",
        functions=("odc.geo.geobox.GeoBox.coordinates", "odc.geo.geobox.GeoBoxBase.resolution"), stubs=("LinSeq",), setup=setup),
     Ob("G4_coordinates_rotated", h_coords_rotated, fixed(), descr="coordinates refuse rotated/sheared grids", functions=("odc.geo.geobox.GeoBox.coordinates",), setup=setup),
@@ -759,8 +798,8 @@ OBLIGATIONS = [
                                                       [dict(res0=a, res1=b) for a in (["10", "-10"], ["1/4", "1/4"]) for b in (["30", "-30"], ["7/3", "-7/3"], ["1", "-1"], ["1/3", "1/3"])]),
        descr="zoom_to(resolution=): requested pixel size, covers the same region, tight", functions=("odc.geo.geobox.GeoBoxBase.compute_zoom_to", "odc.geo.geobox.GeoBox.from_bbox"),
        bounds="axis-aligned grids, both resolutions from grid", setup=setup, timeout_ms=20000),
-    Ob("G8_gcp_affine", h_gcp_affine, fixed(*[dict(op=o, crop=c) for o in ("bbox", "zoom_res") for c in (False, True)], dict(op="resolution", crop=False), dict(op="resolution", crop=True, zoom=4), dict(op="bbox", crop=False, zoom=2)),
-       descr="GCP GeoBox with affinely related control points: boundingbox is the world image of the pixel rectangle; zoom_to(resolution=) keeps the region",
+    Ob("G8_gcp_affine", h_gcp_affine, fixed(*[dict(op=o, crop=c) for o in ("bbox", "zoom_res") for c in (False, True)], dict(op="resolution", crop=False), dict(op="resolution", crop=True, zoom=4), dict(op="bbox", crop=False, zoom=2), dict(op="bbox_after_zoom_out", crop=False), dict(op="bbox_after_zoom_out", crop=True)),
+       descr="GCP GeoBox with affinely related control points: boundingbox is the world image of the pixel rectangle (also of a zoomed-out box whose source had its footprint looked at before); zoom_to(resolution=) keeps the region",
        functions=("odc.geo.gcp.GCPGeoBox.boundingbox", "odc.geo.gcp.GCPGeoBox.zoom_to", "odc.geo.geobox.GeoBoxBase.compute_zoom_to", "odc.geo.geobox.GeoBoxBase.extent"),
        bounds="control-point map = fixed linear part (3,-1/2;1/4,-2) with symbolic offset; shape and crop offset symbolic; target resolution 7/2",
        stubs=("affine mapping object in place of the fitted GCPMapping (symbolic run; the replay fits a real GCPMapping)", "vertex-list FakeGeometry",
